@@ -17,6 +17,7 @@ reg(Prop('C16', [
         'ambiguity (full): on Ok the writer emitted exactly the pair encoding of the list, no emitted non-terminator pair is (0,0) and no non-base pair begins with the all-ones marker',
         'write_read_v5: through Unit::write, every added range/location list decodes at offsets.get(id) to exactly its entries and resolves to the meaning of the written list for every base address',
         'write_read_v4 (full): through Unit::write, every added list decodes at its offset to pairs that resolve, relative to the base address the reader derives from the root DIE, to the meaning of the written list',
+        'write_read_by_reader_v5 / write_read_by_reader_v4: composed with the C08 reader model (Model/ListsRd.v): the raw iterator at offsets.get(id) yields exactly the written entries (v5) / the pairs the list is written as (v2-4) with expression bytes unchanged, and the resolving iterator with the base address the reader derives yields exactly the ListWrSpec meaning; the writer bytes are proved equal to the ListSpec encoders on the translated entries and C08 raw_roundtrip / resolve_refines are reused',
         'dedup_rng / dedup_loc / one_copy_v4 / one_copy_v5 / added_lists_read_back_v4/_v5: equal lists <-> equal ids, table = the distinct lists in first-occurrence order, one emitted copy per table element, offsets = running positions; add..add; write; decode end to end',
         'base_from_root(_iff): have_base_address = root has a DW_AT_low_pc other than Address::Constant(0); flag false implies the reader base address is 0',
         'no_panic (full): the list part of Unit::write never panics for any input of the Rust types (the repaired code has no unchecked arithmetic; the model has no build-mode parameter)',
